@@ -652,6 +652,11 @@ def _run(*, tier, seed, jobs, progress, opts):
         mtasks += [('++', pr, d, 2, None) for pr in c04mt.pairs(core)
                    for d in (False, True)]
         mtasks += [('++', pr, False, 2, None) for pr in c04mt.EXTRA_PAIRS[:6]]
+        # three processes at once (a waiter behind a waiter)
+        mtasks += [(layout, t3, False, 1, None) for layout in ('++', 'fs')
+                   for t3 in (('APPEND', 'APPEND', 'APPEND'),
+                              ('APPEND', 'COPY', 'SELECT'),
+                              ('MOVE', 'APPEND', 'CHECK'))]
     if 'mt' in opts:
         mtasks = [t for t in mtasks if t[3] <= int(opts['mt'])]
     mt_cov = {'pairs': 0, 'executions': 0, 'max_decision_points': 0,
